@@ -193,9 +193,11 @@ Definition lz_eqb (x y : list Z) : bool := list_eqb_with Z.eqb x y.
 Definition omsg_eqb (x y : omsg) : bool :=
   let '(h1, n1, v1, b1) := x in let '(h2, n2, v2, b2) := y in
   lz_eqb h1 h2 && lz_eqb n1 n2 && lz_eqb v1 v2 && list_eqb_with lz_eqb b1 b2.
-Definition expect_msg (kind id : Z) (v5 : bool) (a : parr) : omsg :=
+Definition expect_msg (align : nat) (kind id : Z) (v5 : bool) (a : parr) : omsg :=
   let '(nodes, bufs) := w_column v5 a in
-  ([kind; 0%Z; id; Z.of_nat (p_len a); Z.of_nat (List.length bufs)],
+  (* Message.bodyLength = every buffer padded to the alignment (+ the tail padding, proved to be 0) *)
+  let body := batch_offset align bufs + pad_to_alignment align (batch_offset align bufs) in
+  ([kind; 0%Z; id; Z.of_nat (p_len a); Z.of_nat (List.length bufs); Z.of_nat body],
    flat_map (fun p => [Z.of_nat (fst p); Z.of_nat (snd p)]) nodes,
    map Z.of_nat (var_counts a), map zs_of_bytes bufs).
 Fixpoint first_diff (i : Z) (x y : list omsg) : Z :=
@@ -214,12 +216,13 @@ Fixpoint split_at_sep (l : args) : args * args :=
   end.
 Definition p_encode (a : args) : list (list Z) :=
   let v5 := zbool (nth 0 (arg 0 a) 0%Z) in
+  let al := zn (nth 1 (arg 0 a) 0%Z) in
   let '(tree, obs) := split_at_sep (tl a) in
   match parse_arr (S (List.length tree)) tree with
   | Some (p, _) =>
       let ds := dict_values p in
-      let want := map (fun q => expect_msg 2 (Z.of_nat (fst q)) v5 (snd q)) (combine (seq 0 (List.length ds)) ds)
-                  ++ [expect_msg 3 0 v5 p] in
+      let want := map (fun q => expect_msg al 2 (Z.of_nat (fst q)) v5 (snd q)) (combine (seq 0 (List.length ds)) ds)
+                  ++ [expect_msg al 3 0 v5 p] in
       let got := parse_msgs (S (List.length obs)) obs in
       let d := first_diff 0 want got in
       if Z.eqb d (-1) then [[1%Z]] else [[0%Z; d]]
@@ -229,12 +232,13 @@ Definition p_encode (a : args) : list (list Z) :=
 (* diagnostic: the expected messages of [p_encode] in the observed format *)
 Definition p_encode_want (a : args) : list (list Z) :=
   let v5 := zbool (nth 0 (arg 0 a) 0%Z) in
+  let al := zn (nth 1 (arg 0 a) 0%Z) in
   let '(tree, obs) := split_at_sep (tl a) in
   match parse_arr (S (List.length tree)) tree with
   | Some (p, _) =>
       let ds := dict_values p in
-      let want := map (fun q => expect_msg 2 (Z.of_nat (fst q)) v5 (snd q)) (combine (seq 0 (List.length ds)) ds)
-                  ++ [expect_msg 3 0 v5 p] in
+      let want := map (fun q => expect_msg al 2 (Z.of_nat (fst q)) v5 (snd q)) (combine (seq 0 (List.length ds)) ds)
+                  ++ [expect_msg al 3 0 v5 p] in
       flat_map (fun m => let '(h, n, v, b) := m in h :: n :: v :: b) want
   | None => [[(-3)%Z]]
   end.
